@@ -50,6 +50,28 @@ def h12a_merge(R, C, r0, c0, r1, c1):
     assert t.num_rows == R and t.num_cols == C
 
 
+def h12e_sequence(r0, c0, r1, c1, s0, d0, s1, d1, read_first):
+    """merges made one after the other on an open table, the list of merge ranges read in between: every read lists
+    exactly the rectangles merged so far"""
+    R = 3
+    C = 3
+    t = make_table(R, C)
+    assume(0 <= r0 <= r1 < R and 0 <= c0 <= c1 < C and not (r0 == r1 and c0 == c1))
+    assume(0 <= s0 <= s1 < R and 0 <= d0 <= d1 < C and not (s0 == s1 and d0 == d1))
+    assume(r1 < s0 or s1 < r0 or c1 < d0 or d1 < c0)        # disjoint
+    r0, r1, c0, c1 = concretize(r0), concretize(r1), concretize(c0), concretize(c1)
+    s0, s1, d0, d1 = concretize(s0), concretize(s1), concretize(d0), concretize(d1)
+    a = xl_range(r0, c0, r1, c1)
+    b = xl_range(s0, d0, s1, d1)
+    if read_first:
+        assert t.merge_ranges == []
+    t.merge_cells(a)
+    assert t.merge_ranges == [a]
+    t.merge_cells(b)
+    assert t.merge_ranges == sorted([a, b])
+    assert t.merge_ranges == sorted([a, b])
+
+
 def h12a_list(r0, c0, r1, c1, s0, d0, s1, d1):
     """two disjoint rectangles given as a list on a 3x3 table"""
     R = 3
@@ -245,6 +267,10 @@ HARNESSES = [
             outside=["reload through real archives", "shapes beyond 3x3"]),
     Harness("H12a-list", h12a_list, dict(r0=IntDom(), c0=IntDom(), r1=IntDom(), c1=IntDom(), s0=IntDom(), d0=IntDom(), s1=IntDom(), d1=IntDom()),
             bounds="every pair of disjoint rectangles in a 3x3 table, given as a list"),
+    Harness("H12e", h12e_sequence, dict(r0=IntDom(), c0=IntDom(), r1=IntDom(), c1=IntDom(), s0=IntDom(), d0=IntDom(), s1=IntDom(), d1=IntDom(),
+                                        read_first=BoolDom()),
+            bounds="every ordered pair of disjoint rectangles in a 3x3 table merged one after the other; merge_ranges read "
+                   "before the first merge (or not), after the first and twice after the second"),
     Harness("H12c", h12c_insert_after_merge, dict(r0=IntDom(), r1=IntDom(), start=IntDom(), at_end=BoolDom()),
             bounds="3x2 table, full-width merged rectangle of any row span, one row inserted at any index before/after it or at the end"),
     Harness("H12b", h12b_codec, dict(r0=BVDom(20), c0=BVDom(10), nr=BVDom(2), nc=BVDom(2), slack_r=BoolDom(), slack_c=BoolDom()),
